@@ -187,15 +187,22 @@ pub fn calibrate() {
         let mut map = HashMap::new();
         for s in SPECS.iter().filter(|s| registered(s)) {
             for k in 0..s.nkeys {
+                // nested bodies may have left entries here while other functions were calibrated
+                cachelito_core::invalidate_with(s.reg_name, |_| true);
                 world::set_plan(s.id, k, Script { cif_verdict: true, ..Default::default() });
                 let _ = (s.call)(k);
                 if let Some(keys) = list_keys(s.reg_name) {
-                    if keys.len() == 1 {
-                        map.insert((s.id, keys.into_iter().next().unwrap()), k);
+                    // the one key not seen for a smaller tuple (recursive bodies store smaller tuples too)
+                    let fresh: Vec<String> = keys.into_iter().filter(|x| !map.contains_key(&(s.id, x.clone()))).collect();
+                    if fresh.len() == 1 {
+                        map.insert((s.id, fresh.into_iter().next().unwrap()), k);
                     }
                 }
                 cachelito_core::invalidate_with(s.reg_name, |_| true);
             }
+        }
+        for s in SPECS.iter().filter(|s| registered(s)) {
+            cachelito_core::invalidate_with(s.reg_name, |_| true);
         }
         *KEYSTR.lock().unwrap() = Some(map);
     });
@@ -424,7 +431,9 @@ fn l2_quiescence(case: &SCase, prop: &str) {
                 fail("memory_exceeded_after_concurrency", &["C18"], format!("{} [{}] holds {total} bytes at quiescence, max_memory {m}: {:?}", s.fn_name, s.attrs, strs));
             }
         }
-        if !case.probe {
+        if !case.probe || s.family == "nested" {
+            // (a call of a nested body looks up and stores other tuples too, so "n fresh stores"
+            // says nothing about which entries must be gone; the bounds above still apply)
             continue;
         }
         // ---- sequential probe: values, bounds, evictable, expirable, invalidatable
@@ -737,6 +746,8 @@ pub fn gen_case(prop: &str, seed: u64) -> (SCase, Sched) {
         .filter(|s| registered(s))
         .filter(|s| match prop {
             "C03" => s.limit.is_none() && s.ttl.is_none() && s.max_memory.is_none() && !s.has_inv_on && !s.has_cache_if && !s.is_result,
+            // nested bodies perform lookups that are not top-level calls of the program
+            "C15" => s.family != "nested",
             _ => true,
         })
         .collect();
@@ -745,7 +756,12 @@ pub fn gen_case(prop: &str, seed: u64) -> (SCase, Sched) {
     while (fns.len() as u64) < nf {
         let s = if matches!(prop, "C17" | "C18") && r.chance(1, 2) {
             // bias towards caches whose stores evict / expire and towards invalidation groups
-            let b: Vec<&&FnSpec> = pool.iter().filter(|s| s.limit.map_or(false, |n| n <= 2) || has_meta(s) || s.ttl.is_some()).collect();
+            let b: Vec<&&FnSpec> = if r.chance(1, 4) {
+                // bodies that call other decorated functions or themselves
+                pool.iter().filter(|s| s.family == "nested").collect()
+            } else {
+                pool.iter().filter(|s| s.limit.map_or(false, |n| n <= 2) || has_meta(s) || s.ttl.is_some()).collect()
+            };
             **r.pick(&b)
         } else {
             *r.pick(&pool)
